@@ -98,13 +98,19 @@ class UnifyingDomain(Registry):
         """Convert an ESB packet to SendPdu or SendBlePdu message.
         """
         if isinstance(packet.metadata, UnifyingMetadata):
+            # Retransmission count is a sending option the connector may have
+            # attached to the packet metadata
+            retr_count = getattr(packet.metadata, "retransmission_count", None)
+            if retr_count is None:
+                retr_count = 1
+
             if packet.metadata.raw:
                 return UnifyingDomain.bound('send_raw', self.proto_version).from_packet(
-                    packet
+                    packet, retr_count=retr_count
                 )
             else:
                 return UnifyingDomain.bound('send', self.proto_version).from_packet(
-                    packet
+                    packet, retr_count=retr_count
                 )
         else:
             # Error
